@@ -189,10 +189,11 @@ Section Events.
   Qed.
 
   (* ---- reset ---- *)
-  Definition reset_step (acc : res) (id : N) : res :=
-    if is_panic (r_out acc) then acc else
-    let r1 := fail_op cfg (r_s acc) id EClientClosed in
-    mkRes (r_s r1) (r_done acc ++ r_done r1) (if is_panic (r_out r1) then r_out r1 else Ok tt).
+  Notation reset_step :=
+    (fun (acc : res) (id : N) =>
+       if is_panic (r_out acc) then acc else
+       let r1 := fail_op cfg (r_s acc) id EClientClosed in
+       mkRes (r_s r1) (r_done acc ++ r_done r1) (if is_panic (r_out r1) then r_out r1 else Ok tt)).
 
   Definition reset_inv (st0 : pstate) (acc : res) : Prop :=
     r_out acc = Ok tt /\ WFS (r_s acc) /\ s_st (r_s acc) = st0.
@@ -201,7 +202,7 @@ Section Events.
     st0 = Disconnected \/ st0 = Halted -> reset_inv st0 acc -> reset_inv st0 (fold_left reset_step ids acc).
   Proof.
     induction ids as [|id rest IH]; intros acc Hst0 Hinv; cbn [fold_left]; [exact Hinv|].
-    apply IH; [exact Hst0|]. destruct Hinv as (I1 & I2 & I3). unfold reset_step. rewrite I1. cbn [is_panic].
+    apply IH; [exact Hst0|]. destruct Hinv as (I1 & I2 & I3). rewrite I1. cbn [is_panic].
     assert (H9 : W9 cfg (r_s acc)) by (intros E; destruct Hst0; congruence).
     pose proof (fail_op_spec cfg [] (r_s acc) id EClientClosed I2 H9) as F.
     cbv zeta. unfold reset_inv. cbn [r_s r_out]. rewrite (nopanic_is_panic _ (fs_nopanic _ _ _ _ _ F)).
@@ -209,35 +210,13 @@ Section Events.
     destruct (fc_st _ _ _ (fs_frame _ _ _ _ _ F)) as [E|[E _]]; [congruence|]. destruct Hst0; congruence.
   Qed.
 
-  Definition clear_state (s1 : state) : state :=
-    s1 <| s_pwc := false |> <| s_ops := [] |> <| s_tmo := [] |> <| s_uq := [] |> <| s_rq := [] |> <| s_hq := [] |>
-       <| s_cur := None |> <| s_q2in := [] |> <| s_alloc := [] |> <| s_ppub := [] |> <| s_pnon := [] |> <| s_pwco := [] |>
-       <| s_settings := None |> <| s_next_pid := 1 |> <| s_connected_before := false |> <| s_next_ping := None |>
-       <| s_ping_to := None |> <| s_connack_to := None |>.
-
-  Lemma reset_unfold (s : state) :
-    reset cfg s =
-    let s0 := if pstate_eqb (s_st s) Disconnected then s else s <| s_st := Halted |> in
-    let r := fold_left reset_step (map fst (s_ops s0)) (pure s0) in
-    if is_panic (r_out r) then r else mkRes (clear_state (r_s r)) (r_done r) (Ok tt).
-  Proof. unfold reset, reset_step, clear_state. reflexivity. Qed.
-
-  Lemma clear_state_wf (s1 : state) :
-    s_st s1 = Disconnected \/ s_st s1 = Halted -> WF cfg (clear_state s1).
-  Proof.
-    intros Hst. split.
-    - eapply (WFc_reset [] _ (s_next_id s1)). reflexivity.
-    - unfold WFP. change (s_st (clear_state s1)) with (s_st s1). destruct Hst as [-> | ->]; [|exact I].
-      unfold clear_state. cbn. splits; reflexivity.
-  Qed.
-
   Lemma reset_spec (s : state) :
     WFS s ->
-    let r := reset cfg s in
-    r_out r = Ok tt /\ WF cfg (r_s r) /\
-    s_st (r_s r) = (if pstate_eqb (s_st s) Disconnected then Disconnected else Halted) /\ s_ops (r_s r) = [].
+    r_out (reset cfg s) = Ok tt /\ WF cfg (r_s (reset cfg s)) /\
+    s_st (r_s (reset cfg s)) = (if pstate_eqb (s_st s) Disconnected then Disconnected else Halted) /\
+    s_ops (r_s (reset cfg s)) = [].
   Proof.
-    intros HW. rewrite reset_unfold.
+    intros HW. unfold reset.
     set (s0 := if pstate_eqb (s_st s) Disconnected then s else s <| s_st := Halted |>).
     set (st0 := if pstate_eqb (s_st s) Disconnected then Disconnected else Halted).
     assert (Hst0 : st0 = Disconnected \/ st0 = Halted) by (unfold st0; destruct (pstate_eqb (s_st s) Disconnected); tauto).
@@ -245,9 +224,15 @@ Section Events.
     { unfold reset_inv, pure. cbn [r_s r_out]. split; [reflexivity|]. unfold s0, st0.
       destruct (pstate_eqb (s_st s) Disconnected) eqn:E; [|split; [exact HW|reflexivity]].
       split; [exact HW|]. apply pstate_eqb_eq. exact E. }
-    destruct (reset_fold st0 (map fst (s_ops s0)) (pure s0) Hst0 Hinv0) as (I1 & I2 & I3).
-    cbv zeta. set (r := fold_left reset_step (map fst (s_ops s0)) (pure s0)) in *. clearbody r.
-    rewrite I1. cbn [is_panic r_s r_out]. split; [reflexivity|]. split; [|split; [exact I3|reflexivity]].
-    apply clear_state_wf. rewrite I3. exact Hst0.
+    pose proof (reset_fold st0 (map fst (s_ops s0)) (pure s0) Hst0 Hinv0) as (I1 & I2 & I3).
+    cbv zeta.
+    set (r := fold_left reset_step (map fst (s_ops s0)) (pure s0)) in *. clearbody r.
+    rewrite I1. cbn [is_panic r_s r_out].
+    split; [reflexivity|]. split; [|split; [exact I3|reflexivity]].
+    split.
+    - eapply (WFc_reset [] _ (s_next_id (r_s r))). reflexivity.
+    - unfold WFP. cbn [s_st set]. 
+      match goal with |- match ?x with _ => _ end => change x with (s_st (r_s r)) end.
+      rewrite I3. destruct Hst0 as [-> | ->]; [|exact I]. splits; reflexivity.
   Qed.
 End Events.
